@@ -921,6 +921,21 @@ func (state *RuntimeState) checkAuth(w http.ResponseWriter, r *http.Request, req
 				}
 			}
 			if authData.Username != "" {
+				// The second factor handlers upgrade the session cookie of
+				// the request: never let a certificate of one user speak
+				// for the session cookie of another one.
+				for _, cookie := range r.Cookies() {
+					if cookie.Name != authCookieName {
+						continue
+					}
+					info, err := state.getAuthInfoFromAuthJWT(cookie.Value)
+					if err == nil && info.Username != authData.Username {
+						state.writeFailureResponse(w, r,
+							http.StatusUnauthorized, "")
+						return nil, errors.New(
+							"client certificate and session cookie identify different users")
+					}
+				}
 				state.logger.Debugf(4, "returning tls cert authinfo")
 				return &authData, nil
 			}
